@@ -213,6 +213,10 @@ def entry_points():
     # dimensionality
     E['Bycycle.fit.ndim'] = lambda v: Bycycle(thresholds=dict(S.T0)).fit((np.zeros((2,) * (v - 1) + (48,)) + sig[:48]) if v else np.array(1.), 64, (6, 14))
     E['BycycleGroup.fit.ndim'] = lambda v: BycycleGroup(thresholds=dict(S.T0)).fit((np.zeros((1,) * (v - 1) + (48,)) + sig[:48]) if v else np.array(1.), 64, (6, 14), n_jobs=1)
+    E['detect_bursts_cycles.positional'] = lambda v: detect_bursts_cycles(_table().drop(columns=['is_burst']), *v)
+    E['detect_bursts_amp.positional'] = lambda v: detect_bursts_amp(_table('amp').drop(columns=['is_burst']), *v)
+    E['check_min_burst_cycles.positional'] = lambda v: check_min_burst_cycles(np.array([True, True, False]), *v)
+
     def refit(v):
         first, second = v
         bg = BycycleGroup(thresholds=dict(S.T0))
@@ -272,6 +276,33 @@ def probes():
         P.append(['Bycycle.fit.ndim', v, exp])
     for v, exp in ((0, 'VE'), (1, 'VE'), (2, 'ok'), (3, 'ok'), (4, 'VE')):
         P.append(['BycycleGroup.fit.ndim', v, exp])
+    # the same out-of-range values carried by numpy scalar types
+    def T(kind, v):
+        return {'np': kind, 'v': v}
+    for mk, nm in ((lambda v: T('float32', v), 'float32'), (lambda v: T('float16', v), 'float16'), (lambda v: T('float64', v), 'float64')):
+        for pre in ('detect_bursts_cycles.', 'compute_features.', 'Bycycle.fit.'):
+            P.append([pre + 'monotonicity_threshold', mk(1.5), 'VE'])
+            P.append([pre + 'amp_fraction_threshold', mk(-.5), 'VE'])
+            P.append([pre + 'period_consistency_threshold', mk(.5), 'ok'])
+        P.append(['detect_bursts_amp.burst_fraction_threshold', mk(1.5), 'VE'])
+        P.append(['compute_features.fs', mk(-64), 'VE'])
+    for mk in (lambda v: T('int64', v), lambda v: T('int32', v), lambda v: T('int8', v)):
+        for e in ('check_min_burst_cycles', 'detect_bursts_cycles', 'detect_bursts_amp', 'compute_features.cycles', 'compute_features.amp.thr',
+                  'Bycycle.fit'):
+            P.append([e + '.min_n_cycles', mk(-2), 'VE'])
+            P.append([e + '.min_n_cycles', mk(2), 'ok'])
+    for e in ('compute_burst_fraction', 'compute_features'):
+        P.append([e + '.amp_threshes', T('array-int64', [2, 1]), 'VE'])
+        P.append([e + '.amp_threshes', T('array-float32', [2., 1.]), 'VE'])
+        P.append([e + '.amp_threshes', T('array-float64', [.5, 1.]), 'ok'])
+    # thresholds passed positionally (documented parameter order)
+    for v, exp in (((0., .5, .5, 1.5), 'VE'), ((-.1,), 'VE'), ((0., 1.5), 'VE'), ((0., .5, -1e-9), 'VE'), ((0., .5, .5, .8, -1), 'VE'),
+                   ((0., .5, .5, .8, 3), 'ok'), ((.2, .3), 'ok')):
+        P.append(['detect_bursts_cycles.positional', list(v), exp])
+    for v, exp in (((1.5,), 'VE'), ((-.1,), 'VE'), ((.5, -1), 'VE'), ((.5, 2), 'ok')):
+        P.append(['detect_bursts_amp.positional', list(v), exp])
+    for v, exp in (((-1,), 'VE'), ((2,), 'ok')):
+        P.append(['check_min_burst_cycles.positional', list(v), exp])
     for first in (2, 3):
         for second, exp in ((0, 'VE'), (1, 'VE'), (2, 'ok'), (3, 'ok'), (4, 'VE')):
             P.append(['BycycleGroup.refit.ndim', [first, second], exp])
@@ -288,6 +319,8 @@ def eval_probe(case):
     if _E is None:
         _E = entry_points()
     name, v, exp = case
+    if isinstance(v, dict) and 'np' in v:
+        v = np.array(v['v'], dtype=v['np'][6:]) if v['np'].startswith('array-') else getattr(np, v['np'])(v['v'])
     v = tuple(v) if isinstance(v, list) else v
     try:
         _E[name](v)
